@@ -282,6 +282,19 @@ def proto():
         else:
             emit_nat(n, env[n])
     emit_nat("MAX_FRAMES_PER_MESSAGE", env.get("MAX_FRAMES_PER_MESSAGE", 0))
+    # frame limit before the data phase (0 = the handshake uses MAXMSGSIZE as is)
+    hs_lim = 0
+    mm = re.search(r"const HANDSHAKE_FRAME_LIMIT\s*:\s*i64\s*=\s*([^;]+);", strip_comments(src(en)))
+    bnew = fn_body(en, "new")
+    if mm and "handshake_frame_limit(max_msg_size)" in bnew:
+        hs_lim = num(mm.group(1))
+        bh = fn_body(en, "handshake_frame_limit")
+        if not re.search(r"if\s+max_msg_size\s*<\s*0\s*\{\s*-1\s*\}\s*else\s*\{\s*max_msg_size\.max\(HANDSHAKE_FRAME_LIMIT\)\s*\}", bh):
+            errors.append("handshake_frame_limit: unexpected shape")
+        bv2 = fn_body(en, "process_v2_identity")
+        if "NullFramer::new(\n      self.config.max_msg_size" not in src(en) and "self.config.max_msg_size," not in bv2:
+            errors.append("process_v2_identity no longer installs the data-phase framer")
+    emit_nat("HANDSHAKE_FRAME_LIMIT", hs_lim)
     for n in ["GREETING_VERSION_MAJOR_BYTE", "GREETING_VERSION_MINOR_BYTE", "V2_REVISION", "V3_REVISION"]:
         if n not in env:
             errors.append(f"const {n} not found")
